@@ -302,13 +302,26 @@ func genEvidence(r *vf.Rng, c *Case) Ev {
 	hv := honestVotes(r, k, e.Round, e.RIndex)
 	if e.Round == c.Parent {
 		// prefer the votes a real honest run of this validator sent
-		for key, signs := range c.realHV {
+		var keys []string
+		for key := range c.realHV {
+			keys = append(keys, key)
+		}
+		sort.Strings(keys)
+		var match []string
+		for _, key := range keys {
 			var rk int
 			var ri uint32
 			fmt.Sscanf(key, "%d/%d", &rk, &ri)
-			if rk == k && len(signs) > 0 {
-				hv, e.RIndex = signs, ri
+			if rk == k && len(c.realHV[key]) > 0 {
+				match = append(match, key)
 			}
+		}
+		if len(match) > 0 {
+			key := match[r.Intn(len(match))]
+			var rk int
+			var ri uint32
+			fmt.Sscanf(key, "%d/%d", &rk, &ri)
+			hv, e.RIndex = c.realHV[key], ri
 		}
 	}
 	pick2 := func(f func(a, b Sign) bool) ([]Sign, bool) {
@@ -522,6 +535,17 @@ func genCase(r *vf.Rng) (Case, []Case) {
 			c.realHV[fmt.Sprintf("%d/%d", vc.VRun.Key, vc.VRun.Index)] = signsOfRun(vc)
 		}
 	}
+	if r.Chance(40) {
+		if lc := genLifeRun(r, &c); lc != nil {
+			extra = append(extra, *lc)
+			if c.realHV == nil {
+				c.realHV = map[string][]Sign{}
+			}
+			for k, v := range signsOfLife(lc) {
+				c.realHV[k] = v
+			}
+		}
+	}
 	if r.Chance(30) {
 		if dc := genDetectRun(r, &c); dc != nil {
 			extra = append(extra, *dc)
@@ -591,6 +615,9 @@ func nontrivial(c *Case) bool {
 	if c.Mode == "penal" {
 		return true
 	}
+	if c.Mode == "life" {
+		return len(c.Obs.Emitted) > 1
+	}
 	for i := range c.Evs {
 		e := &c.Evs[i]
 		if e.Kind == "ds" && e.Round == c.Parent && len(e.Signs) >= 2 && expectedSigner(c, e) != nil {
@@ -632,6 +659,47 @@ func classify(c *Case, res *vf.Result) {
 	case "detect":
 		res.Count(fmt.Sprintf("detector_posted_%d", len(o.Detected)))
 		return
+	case "life":
+		restarts, kills, reentry := 0, 0, false
+		for _, op := range c.LRun.Ops {
+			switch op.Op {
+			case "restart":
+				restarts++
+			case "kill":
+				kills++
+			}
+		}
+		lives := map[int]bool{}
+		kindsAt := map[string]map[int]bool{}
+		for _, e := range o.Emitted {
+			lives[e.Life] = true
+			k := fmt.Sprintf("%d/%d", e.Round, e.Index)
+			if kindsAt[k] == nil {
+				kindsAt[k] = map[int]bool{}
+			}
+			kindsAt[k][e.Kind] = true
+		}
+		for _, ks := range kindsAt {
+			if len(ks) > 1 {
+				reentry = true
+			}
+		}
+		if restarts > 0 {
+			res.Count("life_with_restart")
+		}
+		if kills > 0 {
+			res.Count("life_with_kill_point")
+		}
+		if len(lives) > 1 {
+			res.Count("life_votes_in_several_lifetimes")
+		}
+		if reentry && restarts+kills > 0 {
+			res.Count("life_mixed_kinds_in_a_position_and_restart")
+		}
+		return
+	}
+	if len(c.Honest) > 0 {
+		res.Count("evidence_from_a_life_pair_" + c.Mode)
 	}
 	if o.Panic != "" {
 		res.Count("panic")
@@ -847,6 +915,8 @@ func oracleAny(c *Case, fx Fixes) []Hit {
 		return oracleVoter(c)
 	case "detect":
 		return oracleDetect(c)
+	case "life":
+		return oracleLife(c)
 	}
 	hits := oracle(c, fx)
 	if d := checkBLS(c); d != "" {
@@ -1077,6 +1147,11 @@ func oracle(c *Case, fx Fixes) []Hit {
 		}
 		switch best {
 		case "equivocation":
+			for _, hk := range c.Honest {
+				if hk == k && stillSent(c) {
+					hit("protocol-following-validator-slashed", fmt.Sprintf("evidence against a validator that followed the protocol is accepted: validator %d only ran the real Voter (restarts and crashes included), two of the votes it sent are a complete double-sign evidence and it was penalised (%s)", k, c.Note))
+				}
+			}
 		case "":
 			hit("penalised-without-valid-evidence", fmt.Sprintf("validator %d was penalised but no evidence of the parent round carries only valid signatures of its key", k))
 		case "duplicate":
@@ -1291,6 +1366,8 @@ func caseCoq(c *Case, fx Fixes) string {
 		}
 	case "penal":
 		mode = fmt.Sprintf("(MPenal %s %s)", nI(c.PenKey+1), zS(c.PenAmt))
+	case "life":
+		mode = "(MVotes " + votesCoq(c) + ")"
 	}
 	o := &c.Obs
 	total := o.Total
